@@ -74,10 +74,12 @@ ARITH = {("dt", "-", "dt"): "td", ("dt", "+", "td"): "dt", ("td", "+", "dt"): "d
 
 
 class V:
-    """g: Gallina name; ty: type; ref: python name of the local list whose [-1] this name aliases"""
+    """g: Gallina name; ty: type; ref: python name of the local list whose [-1] this name aliases;
+    owned: the local holds an object created in this function (Event(...), a dict literal) that
+    nothing else refers to yet"""
 
-    def __init__(self, g, ty, ref=None):
-        self.g, self.ty, self.ref = g, ty, ref
+    def __init__(self, g, ty, ref=None, owned=False):
+        self.g, self.ty, self.ref, self.owned = g, ty, ref, owned
 
 
 class Ctx:
@@ -359,6 +361,8 @@ class Fn:
                     got[e.keywords[i].arg] = (t, ty)
                     return go(i + 1)
                 kv = e.keywords[i].value
+                if e.keywords[i].arg == "data" and not self.fresh_object(kv, env):
+                    raise Fail("Event(data=...) must be given a dict created here (a shared dict would be mutated later)")
                 if e.keywords[i].arg == "data" and isinstance(kv, ast.Dict) and not kv.keys:
                     return one("[]", "dict")      # data={}: an empty data dict whatever {} means elsewhere
                 return self.ex(kv, env, one)
@@ -543,8 +547,8 @@ class Fn:
                 return self.bindr(f"py_last {env[root].g}", lambda _t: nxt(env2), "_a")
 
             def bound(t, ty):
-                env2 = {a: v for a, v in env.items() if v.ref != n}
-                env2[n] = V(gname(n), ty)
+                env2 = {a: v for a, v in (self.moved(env, value) if self.is_creation(value) else env).items() if v.ref != n}
+                env2[n] = V(gname(n), ty, owned=self.is_creation(value))
                 return f"let {gname(n)} := {t} in\n  {nxt(env2)}"
             return self.ex(value, env, bound)
         if isinstance(target, ast.Subscript) and isinstance(target.value, ast.Name) and target.value.id in env \
@@ -554,6 +558,8 @@ class Fn:
             def stored(tv, tyv):
                 if tyv != "gev":
                     raise Fail(f"storing a {tyv} into the dict of events")
+                if not self.fresh_object(value, env):
+                    raise Fail("storing an object into the dict that was not created here (it would be mutated through the dict)")
 
                 def keyed(tk, tyk):
                     if tyk != "ckey":
@@ -587,11 +593,23 @@ class Fn:
         raise Fail("unsupported assignment target " + ast.dump(target)[:60])
 
     @staticmethod
+    def is_creation(e):
+        return isinstance(e, ast.Dict) or (isinstance(e, ast.Call) and isinstance(e.func, ast.Name) and e.func.id == "Event")
+
+    def fresh_object(self, e, env):
+        """an object nothing else refers to: created by this very expression, or held by an owning local"""
+        return self.is_creation(e) or (isinstance(e, ast.Name) and e.id in env and env[e.id].ref is None and env[e.id].owned)
+
+    @staticmethod
     def moved(env, value):
-        """an object stored into a container is no longer reachable through the local"""
-        if isinstance(value, ast.Name) and value.id in env and env[value.id].ty in ("gev", "cev"):
-            return {a: v for a, v in env.items() if a != value.id}
-        return env
+        """an object stored into a container / handed to Event(data=...) is no longer reachable through the local"""
+        gone = set()
+        if isinstance(value, ast.Name):
+            gone.add(value.id)
+        for node in ast.walk(value):
+            if isinstance(node, ast.Call) and isinstance(node.func, ast.Name) and node.func.id == "Event":
+                gone |= {kw.value.id for kw in node.keywords if kw.arg == "data" and isinstance(kw.value, ast.Name)}
+        return {a: v for a, v in env.items() if a not in gone or v.ty not in ("gev", "cev", "dict", "cdict")}
 
     def append(self, recv, arg, env, nxt):
         if isinstance(recv, ast.Name) and recv.id in env and env[recv.id].ty in LOCAL_LISTS and env[recv.id].ref is None:
@@ -600,6 +618,8 @@ class Fn:
             def app(t, ty):
                 if ty != LISTS[lv.ty]:
                     raise Fail(f"appending a {ty} to a list of {LISTS[lv.ty]}")
+                if not self.fresh_object(arg, env):
+                    raise Fail("appending an object that was not created here to a list whose elements get mutated")
                 env2 = {a: v for a, v in self.moved(env, arg).items() if v.ref != recv.id}
                 return f"let {lv.g} := {lv.g} ++ [{t}] in\n  {nxt(env2)}"
             return self.ex(arg, env, app)
@@ -659,12 +679,47 @@ class Fn:
             return (f"bind {c} (fun {cn} =>\n  if {cn}\n  then {self.block(s.body, env, ctx2)}\n"
                     f"  else {self.block(s.orelse, env, ctx2)})")
         mut = mutated(branches, self.aliases(env))
-        join = sorted(n for n in mut if n in env and env[n].ref is None)
-        ctxj = Ctx(fall=lambda e2: f"Ok {self.pack(join, e2)}")
-        after = self.rebound(env, join, drop_refs_of=join)
-        return (f"bind (bind {c} (fun {cn} =>\n  if {cn}\n  then {self.block(s.body, env, ctxj)}\n"
-                f"  else {self.block(s.orelse, env, ctxj)})) (fun {self.pat(join)} =>\n"
+        # new locals that both branches define and still hold where they end
+        new_both = sorted(n for n in self.definitely(s.body) & self.definitely(s.orelse) if n not in env)
+        n0 = self.n
+        while True:
+            join = sorted(set(n for n in mut if n in env and env[n].ref is None) | set(new_both))
+            seen, gone = {}, set()
+
+            def fall(e2):
+                for n in join:
+                    if n in e2 and e2[n].ref is None:
+                        seen.setdefault(n, set()).add(e2[n].ty)
+                    elif n in new_both:
+                        gone.add(n)
+                if gone:
+                    return "?"
+                return f"Ok {self.pack(join, e2)}"
+            ctxj = Ctx(fall=fall)
+            self.n = n0
+            then_, else_ = self.block(s.body, env, ctxj), self.block(s.orelse, env, ctxj)
+            if not gone:
+                break
+            new_both = [n for n in new_both if n not in gone]
+        after = {n: v for n, v in env.items() if not (v.ref is not None and v.ref in join)}
+        for n in join:
+            tys = {env[n].ty} if n in env else seen.get(n, set())
+            if len(tys) != 1:
+                raise Fail(f"{n} has no single type after the if")
+            after[n] = V(gname(n), next(iter(tys)))
+        return (f"bind (bind {c} (fun {cn} =>\n  if {cn}\n  then {then_}\n"
+                f"  else {else_})) (fun {self.pat(join)} =>\n"
                 f"  {self.block(rest, after, ctx)})")
+
+    @staticmethod
+    def definitely(body):
+        out = set()
+        for st in body:
+            if isinstance(st, ast.Assign) and len(st.targets) == 1 and isinstance(st.targets[0], ast.Name):
+                out.add(st.targets[0].id)
+            elif isinstance(st, ast.AnnAssign) and st.value is not None and isinstance(st.target, ast.Name):
+                out.add(st.target.id)
+        return out
 
     # ---------------------------------------------------------------- a whole function
     def function(self, fn, params):
